@@ -311,6 +311,7 @@ def run_case(case, hooks=None, mutate=False):
     old_tempdir = tempfile.tempdir
     tempfile.tempdir = priv
     cache_abs = os.path.join(root, case['cache'])
+    old_cwd = os.getcwd()
     clock = [1000000]
     outs = []
     try:
@@ -319,6 +320,13 @@ def run_case(case, hooks=None, mutate=False):
         spelled = {}
         for step_index, st in enumerate(case['steps']):
             k = st[0]
+            if case.get('spell') is not None and k in ('build', 'clean'):
+                # relative spellings are resolved against the working directory of the moment: move it around
+                wd = [root, os.path.dirname(root), SANDBOX_BASE, '/', old_cwd][(case['spell'] + step_index) % 5]
+                try:
+                    os.chdir(wd)
+                except OSError:
+                    pass
             if k == 'mut':
                 apply_mut(root, st[1], st[2], st[3], st[4])
                 outs.append({'tree': snapshot(root, cache_abs)})
@@ -379,6 +387,10 @@ def run_case(case, hooks=None, mutate=False):
                 raise ValueError(k)
         return {'steps': outs, 'init': init}
     finally:
+        try:
+            os.chdir(old_cwd)
+        except (OSError, NameError):
+            pass
         tempfile.tempdir = old_tempdir
         shutil.rmtree(root, ignore_errors=True)
         shutil.rmtree(priv, ignore_errors=True)
